@@ -84,18 +84,22 @@ def gen_calendar(rng):
 
 # ------------------------------------------------------------------ look-ups
 def check_lookups(res, ctx, batch):
-    """batch: list of (name, truth, today, avail, lookups, oracle: bool, cache)"""
+    """batch: list of (name, truth, today, avail, lookups, oracle: bool, cache[, earlier runs]);
+    earlier runs (same loader cache) only prepare the cache: the LAST run is the one judged"""
     st = ctx["stats"]
     hcases, mints = [], []
-    for name, truth, today, avail, lookups, oracle, cache in batch:
-        runs = [{"today": today, "avail": avail, "force": False, "lookups": lookups}]
+    batch = [tuple(b) + ((),) if len(b) == 7 else tuple(b) for b in batch]
+    for name, truth, today, avail, lookups, oracle, cache, pre in batch:
+        runs = [dict(r) for r in pre] + [{"today": today, "avail": avail, "force": False, "lookups": lookups}]
         hc = R.hist_case(truth, runs, cache=cache)
         hcases.append(hc)
         mints.append(R.hist_ints(truth, runs, hc["years"]))
     impl = run_harness(ctx["exe"], "hist", hcases)
     mod = run_model(mints, group="rates")
-    for (name, truth, today, avail, lookups, oracle, cache), hc, io, mo in zip(batch, hcases, impl, mod):
+    for (name, truth, today, avail, lookups, oracle, cache, pre), hc, io, mo in zip(batch, hcases, impl, mod):
         i = R.parse_hist_impl(io, hc["years"])
+        if pre:
+            st["with-earlier-runs"] += 1
         m = R.parse_hist_model(mo, len(hc["years"]))
         st["evaluations"] += 1
         st["lookups"] += len(lookups)
@@ -103,14 +107,14 @@ def check_lookups(res, ctx, batch):
         if d is not None:
             st["correspondence_diffs"] += 1
             ctx["corr_diffs"].append((dict(hc, replay_mode="lookups",
-                                           replay_case=[name, truth, today, avail, lookups, oracle, cache]), d))
+                                           replay_case=[name, truth, today, avail, lookups, oracle, cache, [dict(r) for r in pre]]), d))
         if i["status"] != "ok":
             res.violation("failing-input", "look-up panicked: %s" % i.get("panic"),
                           {"input": hc, "replay_mode": "lookups",
-                           "replay_case": [name, truth, today, avail, lookups, oracle, cache]})
+                           "replay_case": [name, truth, today, avail, lookups, oracle, cache, [dict(r) for r in pre]]})
             continue
         # URL series per year
-        for y, s in i["runs"][0]["requests"]:
+        for y, s in i["runs"][-1]["requests"]:
             if s != R.series_for_year(y):
                 res.violation("failing-input", "year %d requested as series %s" % (y, s), {"input": hc})
         if not oracle:
@@ -118,7 +122,7 @@ def check_lookups(res, ctx, batch):
             continue
         pub = R.pub_of(truth, avail)
         calh = hashlib.sha1(json.dumps([o["json"] for o in truth]).encode()).hexdigest()
-        for dd, a in zip(lookups, i["runs"][0]["answers"]):
+        for dd, a in zip(lookups, i["runs"][-1]["answers"]):
             exp = R.rule(pub, today, dd)
             st["rule-" + ("exact" if dd in pub else "notyet" if exp == ("err", 1) else
                           "none7" if exp[0] == "err" else "lookback-%d" % (dd - exp[1]))] += 1
@@ -136,7 +140,7 @@ def check_lookups(res, ctx, batch):
                         R.iso(dd), R.iso(today), R.ans_str(a), R.ans_str(exp)),
                     {"input": hc, "lookup": dd, "lookup_date": R.iso(dd), "actual_impl": R.ans_str(a),
                      "expected_spec": R.ans_str(exp), "case": name, "replay_mode": "lookups",
-                     "replay_case": [name, truth, today, avail, lookups, oracle, cache]})
+                     "replay_case": [name, truth, today, avail, lookups, oracle, cache, [dict(r) for r in pre]]})
                 break
             # the three "never" clauses, literally
             if a[0] == "ok":
@@ -152,7 +156,7 @@ def check_lookups(res, ctx, batch):
                 if bad:
                     res.violation("failing-input", "look-up of %s used %s" % (R.iso(dd), bad),
                                   {"input": hc, "lookup": dd, "actual_impl": R.ans_str(a), "replay_mode": "lookups",
-                                   "replay_case": [name, truth, today, avail, lookups, oracle, cache]})
+                                   "replay_case": [name, truth, today, avail, lookups, oracle, cache, [dict(r) for r in pre]]})
                     break
         if len(ctx["samples"]) < 3 and oracle:
             ctx["samples"].append({"truth": [o["json"] for o in truth][:12], "today": R.iso(today),
@@ -440,6 +444,25 @@ def run(res, ctx):
             done += 1
         check_lookups(res, ctx, batch)
 
+    # the same rule when an earlier run (same cache, earlier today) has left a partly filled year behind
+    batch = []
+    for _ in range(200 if tier == "quick" else 2000):
+        y = rng.choice([2015, 2016, 2017, 2021, 2022])
+        start = R.day(y, rng.choice([3, 6, 11, 12]), rng.randint(1, 12))
+        end = start + rng.randint(20, 45)
+        days = R.gen_pub_days(rng, start, end)
+        if len(days) < 4:
+            continue
+        truth = R.gen_truth(rng, days)
+        t1 = rng.choice(days[1:-1]) + rng.choice([0, 1])
+        pre = [{"today": t1, "avail": t1, "force": False,
+                "lookups": [rng.randint(start, t1) for _ in range(rng.randint(1, 3))]}]
+        t2 = rng.choice([days[-1] + 1, end + rng.randint(1, 20), R.day(y + 1, rng.randint(1, 3), rng.randint(1, 28)),
+                         R.day(y + 2, 1, 15)])
+        lookups = [rng.randint(start - 2, min(end + 3, t2)) for _ in range(rng.randint(3, 12))]
+        batch.append(("after-earlier-run", truth, t2, t2, lookups, True, rng.choice(["mem", "csv"]), pre))
+    check_lookups(res, ctx, batch)
+
     # decision rules through the application path
     nrows = 1500 if tier == "quick" else 12000
     batch = []
@@ -485,8 +508,9 @@ def replay(res, ctx, path):
     r2 = common.Result("C12", ctx["tier"], ctx["seed"])
     mode, case = rep.get("replay_mode"), rep.get("replay_case")
     if mode == "lookups":
-        name, truth, today, avail, lookups, oracle, cache = case
-        check_lookups(r2, ctx, [(name, [R.load_obs(o) for o in truth], today, avail, lookups, oracle, cache)])
+        name, truth, today, avail, lookups, oracle, cache = case[:7]
+        pre = case[7] if len(case) > 7 else []
+        check_lookups(r2, ctx, [(name, [R.load_obs(o) for o in truth], today, avail, lookups, oracle, cache, pre)])
     elif mode == "rows":
         truth, today, avail, rows = case
         check_rows(r2, ctx, [([R.load_obs(o) for o in truth], today, avail, rows)])
